@@ -199,7 +199,11 @@ def run_case(ctx, st, pt, p: Pep, mono, charges):
             c['key'] = (t, z)
             pt.mass(text, ion_type=t, charge=z, monoisotopic=mono)
         c['phase'] = 'fragment'
-        pt.fragment(text, list(chem.ALL_ION_TYPES), charges, monoisotopic=mono)
+        r = ctx.rng.random()
+        # the peptide as text, as a parsed annotation, or as an equal annotation whose modification dictionary is out of
+        # positional order (what reverse()/programmatic construction leave behind)
+        arg = text if r < 0.6 else pt.parse(text) if r < 0.8 else rp.scrambled(pt, text, ctx.rng)
+        pt.fragment(arg, list(chem.ALL_ION_TYPES), charges, monoisotopic=mono)
         frags = c['frags']
         if p.res or p.nterm or p.cterm:
             c['frags'] = None
@@ -209,7 +213,7 @@ def run_case(ctx, st, pt, p: Pep, mono, charges):
         # the class-based fragmenter (cached per-residue masses) must obey the same identities
         c['phase'] = 'fragmenter'
         c['frags2'] = None
-        pt.Fragmenter(text, mono).fragment(list(chem.ALL_ION_TYPES), charges)
+        pt.Fragmenter(arg if not isinstance(arg, str) else text, mono).fragment(list(chem.ALL_ION_TYPES), charges)
         c['phase'] = 'done'
         if c['M'] is None or c['frags'] is None or c['frags2'] is None:
             ctx.inconclusive_case('monitor not reached')
